@@ -233,7 +233,7 @@ def _mf_batches(tier, seed, rep):
         for cont in conts:
             k += 1
             r = Rng(seed, PID, "mf", rep, arg, cont)
-            if tier == "quick" and (k + seed) % 2 and arg in ("y_true", "y_pred", "sample_weight"):
+            if tier == "quick" and arg in ("y_true", "y_pred", "sample_weight") and not r.chance(1, 2):
                 continue
             n = r.randint(4, 9)
             cs = {"y_true": r.choice(CONT_V), "y_pred": r.choice(CONT_V), "sample_weight": r.choice(CONT_V)}
@@ -329,7 +329,7 @@ def cases(tier, seed):
                         # round-robin: every (argument, container) pair is covered across the entry points
                         if family == "moment" and (MOMENTS.index(mom) + ci + seed) % 3 != 0:
                             continue
-                        if family == "reduction" and (k + seed) % 2:
+                        if family == "reduction" and not Rng(seed, PID, "pick", k).chance(1, 2):
                             continue
                     r = Rng(seed, PID, "data", rep, ep, mom, arg, cont)
                     base = _base(r)
@@ -341,6 +341,57 @@ def cases(tier, seed):
                         c["constraint"] = r.choice(SIMPLE + ["equalized_odds"])
                         c["objective"] = r.choice(["accuracy_score", "balanced_accuracy_score"])
                     out.append(c)
+        # ---- two defects at once: the model's ORDER of checks decides which one is reported ---------------
+        for ep in ("load_data", "ExponentiatedGradient.fit", "GridSearch.fit", "ThresholdOptimizer.fit"):
+            r = Rng(seed, PID, "order", rep, ep)
+            base = _base(r)
+            tw = _call(base, _conts(r))
+            ybad = list(base["y"])
+            ybad[r.randint(0, base["n"] - 1)] = r.choice([2, -1, 0.5])
+            two = dict(arg="order", defect="two-defects")
+            calls = [tw,
+                     dict(tw, y=_resize(ybad, 1, "last", r), variant="nonbinary+y-length", **two),
+                     dict(tw, y=None, sf=None, variant="y-none+sf-none", **two),
+                     dict(tw, y=[], sf=_resize(base["sf"], 1, "first", r), variant="y-empty+sf-length", **two),
+                     dict(tw, y=_resize(base["y"], 3, "middle", r), sf=None, variant="y-length+sf-none", **two),
+                     dict(tw, X=_resize(base["X"], -1, "middle", r), sf=_resize(base["sf"], 1, "last", r),
+                          variant="X-length+sf-length", **two)]
+            c = {"ep": ep, "moment": r.choice(MOMENTS if ep == "load_data" else PARITY), "calls": calls}
+            if ep.startswith("Threshold"):
+                c["constraint"], c["objective"] = "equalized_odds", "accuracy_score"
+                calls += [dict(tw, constraint="foo", cf=base["cf"], variant="constraint+control", **two),
+                          dict(tw, objective="selection_rate", y=ybad, variant="objective+nonbinary", **two),
+                          dict(tw, cf=base["cf"], y=ybad, variant="control+nonbinary", **two),
+                          dict(tw, cf=base["cf"], sf=None, variant="control+sf-none", **two),
+                          dict(tw, estimator_none=True, constraint="foo", variant="estimator-none+constraint", **two),
+                          dict(tw, y=[1 if s == base["sf"][0] else v for v, s in zip(ybad, base["sf"])],
+                               variant="nonbinary+degenerate", **two)]
+            else:
+                calls += [dict(tw, sf=_resize(base["sf"], 1, "middle", r), cf=_resize(base["cf"], -1, "first", r),
+                               variant="sf-length+cf-length", **two),
+                          dict(tw, sf=None, cf=_resize(base["cf"], 1, "last", r), variant="sf-none+cf-length", **two)]
+            out.append(c)
+        r = Rng(seed, PID, "order-mf", rep)
+        n = r.randint(4, 8)
+        tw = {"yt": n, "yp": n, "sw": n, "sf": _mf_feat(r, n, "DataFrame", names=["s_a", "s_b"]),
+              "cf": _mf_feat(r, n, "DataFrame", names=["c_a", "c_b"]),
+              "conts": {"y_true": r.choice(CONT_V), "y_pred": r.choice(CONT_V), "sample_weight": r.choice(CONT_V)},
+              "metrics": "callable", "arg": None, "defect": None, "variant": ""}
+        two = dict(arg="order", defect="two-defects")
+        ns = {"ns": 0}
+        out.append({"ep": "MetricFrame", "calls": [
+            tw,
+            dict(tw, yp=n + 1, sf=dict(tw["sf"], names=[ns, "s_b"]), variant="pred-length+nonstring", **two),
+            dict(tw, sw=n - 1, sf=dict(tw["sf"], len=n + 1), variant="param-length+sf-length", **two),
+            dict(tw, sf=dict(tw["sf"], names=[ns, "s_b"], len=n + 1), variant="nonstring-first+sf-length", **two),
+            dict(tw, sf=dict(tw["sf"], names=["s_a", ns], len=n + 1), variant="sf-length+nonstring-second", **two),
+            dict(tw, sf=dict(tw["sf"], names=["s_a", "s_a"]), cf=dict(tw["cf"], names=["c_a", ns]),
+                 variant="duplicate+cf-nonstring", **two),
+            dict(tw, sf=dict(tw["sf"], names=["s_a", "s_a"]), cf=dict(tw["cf"], len=n + 3),
+                 variant="duplicate+cf-length", **two),
+            dict(tw, sf=_mf_feat(r, n + 1, "Series", name=ns), variant="series-length+nonstring", **two),
+            dict(tw, sf=dict(tw["sf"], names=["s_a", "c_b"]), cf=dict(tw["cf"], len=n - 1),
+                 variant="shared-name+cf-length", **two)]})
         # ---- regression moment: non-binary labels are fine, control features are not a keyword ---------
         for ep in ("load_data", "ExponentiatedGradient.fit", "GridSearch.fit"):
             r = Rng(seed, PID, "bgl", rep, ep)
@@ -364,7 +415,9 @@ def cases(tier, seed):
                   ([1, 8], "nan"), ("nan", half)]
         for m in PARITY:
             r = Rng(seed, PID, "bounds", rep, m)
-            sel = bounds if tier == "thorough" else bounds[:1] + r.sample(bounds[1:], 11)
+            # the boundary values 0, 1, just above 1 and both-given are always included
+            must = [(None, None), (None, 0), (None, 1), (None, [1025, 1024]), ([1, 8], half)]
+            sel = bounds if tier == "thorough" else must + r.sample([b for b in bounds if b not in must], 8)
             calls = []
             for d, q in sel:
                 bad = q is not None and (d is not None or not _in01(q, lo_open=True))
@@ -924,7 +977,7 @@ def compare(case, out, model):
                       "prediction before fit raises NotFittedError", "property"))
         elif k != 0 and not any(o["exc"] == t and frag in o["msg"] for t, frag in EXPECT[k]):
             v.append((f"{PID}/{ep}/{arg}/{defect}-other-check-fired",
-                      f"input with the single defect {defect} ({c.get('variant')}) raises {o['exc']}: "
+                      f"input with defect {defect} ({c.get('variant')}) raises {o['exc']}: "
                       f"{o['msg'][:100]!r}, not the check the model places first ({KIND.get(k)})",
                       "the rejection comes from the modelled check", "correspondence"))
     return v
